@@ -323,8 +323,10 @@ def battery(reg, Q, U, M, seed, spellings):
         out["meas:" + u] = _ans(lambda: _q(M(3.0, 0.25, u)))
         out["meas_pm:" + u] = _ans(lambda: _q(Q(3.0, u).plus_minus(0.5)))
         out["copy:" + u] = _ans(lambda: _q(__import__("copy").deepcopy(Q(3.0, u))))
-        out["isinst:" + u] = _ans(lambda: [isinstance(Q(1, u), reg.Quantity) or type(Q(1, u)).__name__,
-                                           Q(1, u)._REGISTRY is _unwrap(reg)])
+        out["isinst:" + u] = _ans(lambda: [type(Q(1, u)).__name__, type(U(u)).__name__,
+                                           Q(1, u)._REGISTRY is _unwrap(reg), U(u)._REGISTRY is _unwrap(reg),
+                                           (Q(1, u) * U(u))._REGISTRY is _unwrap(reg),
+                                           Q(1, u).to_base_units()._REGISTRY is _unwrap(reg)])
     out["ctx:sp"] = _ans(lambda: _q(Q(500.0, "nm").to("THz", "sp")))
     out["with_ctx"] = _ans(lambda: _with_ctx(reg, Q))
     out["wraps"] = _ans(lambda: _q(reg.wraps("m", ("cm",))(lambda x: x * 2)(Q(3.0, "m"))))
@@ -407,7 +409,7 @@ def run_lazy(job):
     res = {"trigger": name}
     app = pint.application_registry
     res["lazy_before"] = type(app.get()).__name__
-    res["policy_before"] = _ans(lambda: app.get()._on_redefinition) if name.startswith("set:") is False else None
+    res["policy_before"] = _ans(lambda: app.get()._on_redefinition)
     res["still_lazy_after_policy_query"] = type(app.get()).__name__
     policy = "raise"
     if name.startswith("set:"):
@@ -479,7 +481,7 @@ def run_unpickle(job):
         r = {"id": it["id"]}
         reg = app.get()
         built = "_units" in vars(reg)
-        r["absent_before"] = [n for n in it["names"] if not built or n not in reg._units]
+        r["absent_before"] = [n for n in (it["names"] or ()) if not built or n not in reg._units]
         try:
             obj = pickle.loads(it["blob"])
         except Exception as e:  # noqa: BLE001
